@@ -718,20 +718,35 @@ def _segment_child(seg, flags, carry):
     isetup.setup_logger = lambda *a, **k: None
     restart = seg.get("restart", False)
     out = {"killed": False, "ended": False, "config_none": False, "viol": [], "stats": {}, "exc": None}
-    if restart and seg.get("steps") is not None:
+    if restart and (seg.get("steps") is not None or seg.get("workers") is not None):
         import tomli
         import tomli_w
 
         try:
             with open("restart.toml", "rb") as fh:
                 cfg = tomli.load(fh)
-            cfg["simulation"]["steps"] = seg["steps"]
+            if seg.get("steps") is not None:
+                cfg["simulation"]["steps"] = seg["steps"]
+            if seg.get("workers") is not None:  # the user restarts on another allocation
+                cfg["runner"]["workers"] = seg["workers"]
             with open("restart.toml", "wb") as fh:
                 tomli_w.dump(cfg, fh)
         except (tomli.TOMLDecodeError, FileNotFoundError, KeyError):
             pass  # an unreadable restart file is for setup_config to report
+    fault = seg.get("fault")
+    ctl = None
+    if fault:
+        from vlib import fsfault
+
+        ctl = fsfault.install(fsfault.Control(os.getcwd(), fault.get("crash_at"), fault.get("cut", 0)))
     try:
-        config = setup_config("restart.toml" if restart else "infretis.toml")
+        if ctl and fault.get("phase") == "setup":  # a crash while the restart is being prepared (repair of the data file)
+            ctl.active = True
+        try:
+            config = setup_config("restart.toml" if restart else "infretis.toml")
+        finally:
+            if ctl:
+                ctl.active = False
     except Exception as exc:  # noqa: BLE001
         out["exc"] = ("setup_config", type(exc).__name__, str(exc))
         return out
@@ -750,13 +765,7 @@ def _segment_child(seg, flags, carry):
     # ---- install recorders (attribute rebinding, child only)
     o_prep, o_treat, o_archive = REPEX_state.prep_md_items, REPEX_state.treat_output, repex.write_to_pathens
 
-    fault = seg.get("fault")
-    ctl = None
     counts = {"treat": 0, "prep": 0}
-    if fault:
-        from vlib import fsfault
-
-        ctl = fsfault.install(fsfault.Control(os.getcwd(), fault.get("crash_at"), fault.get("cut", 0)))
 
     def prep(self, md_items):
         obs.before_prep(self, md_items)
